@@ -33,7 +33,8 @@ ASSUMPTIONS = ['warm-start theorem: abelian group laws on the residual space and
                'names stand for values in the IR: x/flag names bound by the solver call are assumed not aliased (re-binding is detected as ClobberFlag)',
                'jax.jvp of the gradient w.r.t. a parameter slot is the parameter Jacobian (checked against jacfwd in L2)']
 RULE = ('seeded parameterised energies (quadratic and smooth non-quadratic, 2-8 unknowns, both parameter slots, exact and stale '
-        'preconditioners); a case is distinct by (family, n, slot, preconditioner kind, driver, flags) and non-trivial when the parameter '
+        'preconditioners); 3-4 load steps through one ScaledObjective with a precondStrategy and one plain Objective, boundary data and design '
+        'changing every step with a stiffness diagonal that changes by orders of magnitude, with/without warm start and preconditioner refresh; a case is distinct by (family, n, slot, preconditioner kind, driver, flags) and non-trivial when the parameter '
         'change is non-zero; driver event orders for every flag combination')
 IMPORTS = ['From OV.model Require Import M_C19_CFG.', 'From OV.gen Require Import CFG_drivers.']
 CG_RTOL = 1e-5
@@ -82,6 +83,11 @@ def build_energy(spec):
     else:
         f = lambda x, p: (0.5 * x @ Qj @ x + 0.05 * jnp.sum((scj * x) ** 4) - x @ (B0j @ jnp.sin(p[0])) - x @ (B2j @ p[2])
                           + 0.1 * (p[2] @ p[2]) * jnp.sum((scj * x) ** 2) + qj @ x)
+    if spec['family'] == 'varstiff':
+        # quadratic in x, stiffness diagonal scaled by exp(Wd p2): changes by orders of magnitude when the design slot changes
+        Wd = jnp.array([[r.uniform(-1.5, 1.5) for _ in range(k2)] for _ in range(n)])
+        f = lambda x, p: (0.5 * x @ Qj @ x + 0.5 * jnp.sum(jnp.exp(Wd @ p[2]) * (scj * x) ** 2) * 3.0
+                          - x @ (B0j @ p[0]) - x @ (B2j @ p[2]) + qj @ x)
     P = M['Obj'].Params
     mk = lambda: P(bc_data=jnp.array([r.uniform(-1, 1) for _ in range(k0)]), design_data=jnp.array([r.uniform(-1, 1) for _ in range(k2)]))
     return f, mk, sc
@@ -137,6 +143,13 @@ def run_warm(spec):
     if not err <= hinv * (CG_RTOL * nb + slack) * 1.0001 + 1e-14:
         bad.append('warm-start increment differs from -H^-1 (dgrad/dp)(p_new - p_old) by %r (allowed %r)' % (err, hinv * CG_RTOL * nb))
     info = dict(res=res, nb=nb, err=err)
+    if idx == 0:
+        # the variant used by inverse/NonlinearSolve.py must be the same predictor
+        with quiet():
+            dxs = onp.array(M['WS'].warm_start_increment_jax_safe(obj, x_old, p_new[0]))
+        ress = float(onp.linalg.norm(H @ dxs - b))
+        if not ress <= CG_RTOL * nb + slack:
+            bad.append('warm_start_increment_jax_safe does not solve H dx = (dgrad/dp)(p_old - p_new): residual %r > %r' % (ress, CG_RTOL * nb))
     if spec['family'] == 'quad':
         gn = float(onp.linalg.norm(onp.array(g(x_old + jnp.array(dx), p_new))))
         g0 = float(onp.linalg.norm(onp.array(g(x_old, p_new))))
@@ -193,6 +206,68 @@ def run_scaled(spec):
         bad.append('ScaledObjective solve does not return invScaling * xBar (distance to the reference solution %r)' % float(onp.linalg.norm(onp.array(xs) - onp.array(xr))))
     return bad, dict(status='ok', dist=dist, lim=lim)
 
+
+
+def run_steps(spec):
+    """several load steps through ONE ScaledObjective (with a precondStrategy) and ONE plain Objective; boundary data and design change every
+    step, the design changes the stiffness diagonal by orders of magnitude; each step is compared with an independent dense Newton solve"""
+    M = mods()
+    jax, jnp, onp, Obj, Eq = M['jax'], M['jnp'], M['onp'], M['Obj'], M['Eq']
+    from scipy.sparse import csc_matrix
+    f, mk, sc = build_energy(spec)
+    r = random.Random(spec['seed'] + 5)
+    n, K = spec['n'], spec['steps']
+    p0 = mk()
+    x0 = newton_solve(M, f, jnp.zeros(n), p0)
+    hess, g = jax.hessian(f), jax.grad(f)
+    strat = lambda: Obj.PrecondStrategy(lambda x, p: csc_matrix(onp.array(hess(jnp.array(x), p))))
+    tol = 1e-9
+    settings = Eq.get_settings(tol=tol, max_trust_iters=500)
+    bad, info = [], dict(steps=[])
+    with quiet():
+        sobj = Obj.ScaledObjective(f, x0, p0, precondStrategy=strat())
+        uobj = Obj.Objective(f, x0, p0, precondStrategy=strat())
+        sobj.update_precond(sobj.scaling * x0)      # a first factorisation, as every driver script does; with updatePrecond=False it stays stale
+        uobj.update_precond(x0)
+    D = onp.array(sobj.scaling)
+    xs = xu = xr = x0
+    for k in range(K):
+        pk = mk()
+        pk = Obj.param_index_update(pk, 2, pk[2] * spec.get('design_amp', 1.0))
+        with quiet():
+            xs, oks = Eq.nonlinear_equation_solve(sobj, xs, pk, settings, useWarmStart=spec['ws'], updatePrecond=spec['up'])
+            xu, oku = Eq.nonlinear_equation_solve(uobj, xu, pk, settings, useWarmStart=spec['ws'], updatePrecond=spec['up'])
+        xr = newton_solve(M, f, xr, pk, iters=40)
+        if sobj.p is not pk or uobj.p is not pk:
+            bad.append('step %d: objective.p is not the new parameter tuple after nonlinear_equation_solve' % k)
+        gs, gu = onp.array(g(xs, pk)), onp.array(g(xu, pk))
+        H = onp.array(hess(xr, pk))
+        hinv = float(onp.linalg.norm(onp.linalg.inv(H), 2))
+        if oks and not float(onp.linalg.norm(gs / D)) <= tol * 1.001 + 1e-14:
+            bad.append('step %d: scaled solve reported success but |D^-1 grad f(x, p_k)| = %r > tol' % (k, float(onp.linalg.norm(gs / D))))
+        if oku and not float(onp.linalg.norm(gu)) <= tol * 1.001 + 1e-14:
+            bad.append('step %d: unscaled solve reported success but |grad f(x, p_k)| = %r > tol' % (k, float(onp.linalg.norm(gu))))
+        for name, x_, g_, ok in (('scaled', xs, gs, oks), ('unscaled', xu, gu, oku)):
+            if not ok:
+                info['steps'].append(dict(step=k, which=name, status='solver-reported-failure'))
+                continue
+            dist = float(onp.linalg.norm(onp.array(x_) - onp.array(xr)))
+            lim = 4.0 * hinv * float(onp.linalg.norm(g_)) + 1e-11 * (1.0 + float(onp.linalg.norm(onp.array(xr))))
+            if not dist <= lim:
+                bad.append('step %d: the %s solve returns a point at distance %r from the solution for the parameters of this step (limit %r)' % (k, name, dist, lim))
+        if spec['up'] and spec['family'] in ('quad', 'varstiff'):
+            # updatePrecond=True: the factorisation now held is that of the Hessian for THIS step's parameters (Hessian independent of x here),
+            # in scaled variables for the scaled objective
+            v = onp.array([r.uniform(-1, 1) for _ in range(n)])
+            for name, o, xx in (('scaled', sobj, onp.array(xs) * D), ('unscaled', uobj, onp.array(xu))):
+                w = onp.array(o.apply_precond(onp.array(o.hessian_vec(jnp.array(xx), jnp.array(v)))))
+                if not float(onp.linalg.norm(w - v)) <= 1e-7 * float(onp.linalg.norm(v)):
+                    bad.append('step %d: after updatePrecond the %s preconditioner is not the inverse of the current Hessian (|P H v - v| / |v| = %r)'
+                               % (k, name, float(onp.linalg.norm(w - v) / onp.linalg.norm(v))))
+        info['steps'].append(dict(step=k, oks=bool(oks), oku=bool(oku)))
+        if not (oks and oku):
+            break
+    return bad, info
 
 # ============================================================================ driver event orders (dynamic cross-check of the IR) and p bookkeeping
 
@@ -369,7 +444,19 @@ def scaled_specs(ctx):
     return out
 
 
+def steps_specs(ctx):
+    r = ctx.rng('steps')
+    out = []
+    for k in range(ctx.n(6, 40)):
+        out.append(dict(kind='steps', family=['varstiff', 'nonquad', 'varstiff', 'quad'][k % 4], n=r.choice([2, 3, 5]), k0=2, k2=r.choice([1, 2]),
+                        spread=r.choice([1, 2]), steps=r.choice([3, 4]), ws=(k % 3 != 2), up=(k % 5 != 4), design_amp=r.choice([1.0, 2.0]),
+                        seed=r.randrange(1 << 30)))
+    return out
+
+
 def run_spec(spec):
+    if spec['kind'] == 'steps':
+        return run_steps(spec)
     if spec['kind'] == 'warm':
         return run_warm(spec)
     if spec['kind'] == 'scaled':
@@ -393,7 +480,7 @@ def piu_impl():
 
 def correspondence(ctx, model_ok):
     distinct = set()
-    specs = warm_specs(ctx) + scaled_specs(ctx) + driver_specs(ctx)
+    specs = warm_specs(ctx) + scaled_specs(ctx) + steps_specs(ctx) + driver_specs(ctx)
     observed = {}
     for spec in specs:
         bad, info = run_spec(spec)
@@ -448,7 +535,7 @@ def search(ctx, reasons):
     c2 = copy.copy(ctx)
     c2.tier = 'thorough'
     c2.seed = ctx.seed + 1
-    for spec in driver_specs(c2) + warm_specs(c2)[:40] + scaled_specs(c2)[:8]:
+    for spec in steps_specs(c2)[:12] + driver_specs(c2) + warm_specs(c2)[:40] + scaled_specs(c2)[:8]:
         try:
             bad, info = run_spec(spec)
         except Exception:
@@ -471,7 +558,7 @@ def replay(ctx, path):
     case = rep.get('failing_input')
     print('replay of', path)
     print(json.dumps(rep.get('reasons'), indent=1, default=str)[:3000])
-    if not case or case.get('kind') not in ('warm', 'scaled', 'driver'):
+    if not case or case.get('kind') not in ('warm', 'scaled', 'steps', 'driver'):
         print('no concrete failing input recorded; broken obligations:', rep.get('broken'))
         return 1
     bad, info = run_spec(case)
